@@ -158,7 +158,28 @@ fn strip_generics(p: &str) -> String {
     let mut depth = 0;
     while i < b.len() {
         let c = b[i];
-        if c == '<' {
+        if c == '<' && depth == 0 && b[i..].iter().collect::<String>().starts_with("<impl ") {
+            // `path::<impl Type<..>>::item`: keep the segment, strip generics inside it
+            let mut d = 0;
+            let mut j = i;
+            while j < b.len() {
+                if b[j] == '<' {
+                    d += 1;
+                } else if b[j] == '>' && b[j - 1] != '-' {
+                    d -= 1;
+                    if d == 0 {
+                        break;
+                    }
+                }
+                j += 1;
+            }
+            let inner: String = b[i + 6..j.min(b.len())].iter().collect();
+            out.push_str("<impl ");
+            out.push_str(&strip_generics(&inner));
+            out.push('>');
+            i = j + 1;
+            continue;
+        } else if c == '<' {
             if depth == 0 && out.ends_with("::") {
                 out.truncate(out.len() - 2);
             }
